@@ -26,6 +26,67 @@ type nodesChange struct {
 	NodeId uint64
 }
 
+// Changes are queued without bound and handed to the subscriber by a
+// goroutine of its own: the sender (the membership log's apply) must never
+// wait for a subscriber, which may itself be waiting for that apply.
+type nodesChangeSubscription struct {
+	c chan *nodesChange
+	backlog []*nodesChange
+	backlogMu sync.Mutex
+	wakeC chan struct{}
+	doneC chan struct{}
+}
+
+func newNodesChangeSubscription() *nodesChangeSubscription {
+	s := &nodesChangeSubscription {
+		c: make(chan *nodesChange, 10),
+		backlog: make([]*nodesChange, 0),
+		wakeC: make(chan struct{}, 1),
+		doneC: make(chan struct{}),
+	}
+	go s.run()
+	return s
+}
+
+func (this *nodesChangeSubscription) send(n *nodesChange) {
+	this.backlogMu.Lock()
+	this.backlog = append(this.backlog, n)
+	this.backlogMu.Unlock()
+
+	select {
+	case this.wakeC <- struct{}{}:
+	default:
+	}
+}
+
+func (this *nodesChangeSubscription) run() {
+	defer close(this.c)
+
+	for {
+		select {
+		case <- this.wakeC:
+		case <- this.doneC:
+			return
+		}
+		for {
+			this.backlogMu.Lock()
+			if len(this.backlog) == 0 {
+				this.backlogMu.Unlock()
+				break
+			}
+			n := this.backlog[0]
+			this.backlog = this.backlog[1:]
+			this.backlogMu.Unlock()
+
+			select {
+			case this.c <- n:
+			case <- this.doneC:
+				return
+			}
+		}
+	}
+}
+
 type Conn struct {
 	id uint64
 	address string
@@ -33,7 +94,7 @@ type Conn struct {
 	addressesMu sync.RWMutex
 	conns map[uint64]*grpc.ClientConn
 	connsMu sync.RWMutex
-	notifications []chan *nodesChange
+	notifications []*nodesChangeSubscription
 	notificationsMu *sync.RWMutex
 
 	transportCredentials credentials.TransportCredentials
@@ -49,7 +110,7 @@ func NewConn(id uint64, address string, tlsCertFile string) (*Conn, error) {
 		addressesMu: sync.RWMutex{},
 		conns: make(map[uint64]*grpc.ClientConn),
 		connsMu: sync.RWMutex{},
-		notifications: make([]chan *nodesChange, 0),
+		notifications: make([]*nodesChangeSubscription, 0),
 		notificationsMu: &sync.RWMutex{},
 		log: log.WithFields(log.Fields {
 			"node_id": fmt.Sprintf("%16x", id),
@@ -87,8 +148,8 @@ func (this *Conn) Close() {
 
 	this.notificationsMu.Lock()
 	defer this.notificationsMu.Unlock()
-	for _, c := range this.notifications {
-		close(c)
+	for _, s := range this.notifications {
+		close(s.doneC)
 	}
 }
 
@@ -96,9 +157,9 @@ func (this *Conn) NodeChangesNotifications() <- chan *nodesChange {
 	this.notificationsMu.Lock()
 	defer this.notificationsMu.Unlock()
 
-	c := make(chan *nodesChange, 10)
-	this.notifications = append(this.notifications, c)
-	return c
+	s := newNodesChangeSubscription()
+	this.notifications = append(this.notifications, s)
+	return s.c
 }
 
 func (this *Conn) Nodes() map[uint64]string {
@@ -226,7 +287,7 @@ func (this *Conn) sendNodesChangeNotification(n *nodesChange) {
 	this.notificationsMu.RLock()
 	defer this.notificationsMu.RUnlock()
 
-	for _, c := range this.notifications {
-		c <- n
+	for _, s := range this.notifications {
+		s.send(n)
 	}
 }
